@@ -2,12 +2,25 @@
   C14 — RAIRE and the audit interpret every ranked ballot identically.
 
   All theorems are about the literal models of `Shangrla.IrvBallot` (the definitions the driver executes):
-  audit side `rcvLfuncWo`, `rcvVoteforCand`, `nebAssort`, `nenAssort`, `assorterMean`, `fromRaireBallot`;
-  generator side `ranking`, `voteForCand`, `nebWinner/nebLoser`, `nenWinner/nenLoser`, `loadRaireBallot`,
-  `mkNeb`, `mkNen`, `ballotsOf`.
+  audit side `getVoteFor`, `rcvLfuncWo`, `rcvVoteforCand`, `nebAssort`, `nenAssort`, `remnOf`, `assorterMean`,
+  `fromRaireBallot`, `fromRaire`; generator side `ranking`, `voteForCand`, `nebWinner/nebLoser`,
+  `nenWinner/nenLoser`, `loadRaireBallot`, `loadContestsFromRaire`, `mkNeb`, `mkNen`, `ballotsOf`.
 
   A ranking `r` (most preferred first) is represented on the audit side by `auditEnc r = {c ↦ k+1}` and on
   the generator side by `genEnc r = {c ↦ k}` for its `k`-th (0-based) element.
+
+  Property theorems (all quantified over every ranking / ballot list / file, none by enumeration):
+    neb_agree                    NEB verdicts equal, assorter = (w - l + 1)/2           (any list `r`, any w, l)
+    nen_agree                    NEN verdicts equal, assorter = (w - l + 1)/2           (r ⊆ cands; w, l ∈ cands; ANY E)
+    nen_disagree_unlisted        witness that the guard r ⊆ cands of nen_agree is needed
+    mean_gt_half_iff_tally       Assorter.mean > 1/2 ↔ tally_winner > tally_loser (NEB), any list of aligned cards
+    mean_gt_half_iff_tally_nen   same for NEN
+    readers_agree                one RAIRE row: both readers decode to the row's own preference order
+    row_agree                    one RAIRE row through both readers: assorter = (w - l + 1)/2
+    reapply_tallies              re-applying a generated NEB / NEN assertion reproduces its stored tallies
+    file_readers                 whole file: same nested structure from both readers
+    file_orders_agree            whole file: same preference order per (ballot, contest)
+    file_mean_gt_half_iff_tally  whole file, both readers: mean > 1/2 ↔ generator's tally comparison
 -/
 import Shangrla.Model.IrvBallot
 import Mathlib.Tactic.Linarith
@@ -169,9 +182,6 @@ theorem neb_verdicts_agree {votes : Votes κ α} {cvr : GCvr κ α} {cid : κ} {
       · have h5 : ¬ ((kl : Int) + 1 < (kw : Int) + 1) := by omega
         have h6 : ¬ ((kl : Int) < (kw : Int)) := by omega
         simp [Val.truthy, Val.toInt, h1, h2, h3, h4, h5, h6]
-
-/-- the three values `(w - l + 1)/2` can take -/
-def halfOf (w l : Int) : Rat := ((w - l + 1 : Int) : Rat) / 2
 
 /-- **C14, NEB.** For every ranking `r`, every CVR pair holding its two encodings for contest `cid`, and
 every (winner, loser): the winner verdicts are equal, the loser verdicts are equal, and therefore the value
@@ -968,6 +978,321 @@ theorem row_agree {votes : Votes κ α} {cvr : GCvr κ α} {cid : κ} (cands pre
   obtain ⟨e1, e2⟩ := agree_sameMap ha hg hs w l
   exact ⟨e1, fun E hw hl => e2 cands E hsub hw hl⟩
 
+/-! ### whole RAIRE files through both readers -/
+
+section File
+
+/-- a parsed ballot row `cid, bid, p1, p2, …` -/
+abbrev Row := String × String × List String
+
+def Row.toks (t : Row) : List String := t.1 :: t.2.1 :: t.2.2
+
+/-- apply `F cid ·` to every ballot of a nested dict `bid ↦ cid ↦ ballot` -/
+def mapVals {π ν : Type} (F : String → π → ν) (S : List (String × List (String × π))) :
+    List (String × List (String × ν)) :=
+  S.map (fun bv => (bv.1, bv.2.map (fun cp => (cp.1, F cp.1 cp.2))))
+
+/-- the content of the ballot rows as a nested dict `bid ↦ cid ↦ prefs` (a later row for the same ballot and
+contest replaces the earlier one; ballots and contests in order of first appearance) -/
+def shape (rs : List Row) : List (String × List (String × List String)) :=
+  rs.foldl (fun S t => setBallot S t.2.1 t.1 t.2.2) []
+
+def candsOf (info : List (String × List String × String)) (cid : String) : List String :=
+  match dget info cid with
+  | some x => x.1
+  | none => []
+
+variable {κ' : Type} [DecidableEq κ']
+
+theorem dget_map_val {π ν : Type} (G : κ' → π → ν) (d : List (κ' × π)) (k : κ') :
+    dget (d.map (fun kv => (kv.1, G kv.1 kv.2))) k = (dget d k).map (G k) := by
+  induction d with
+  | nil => rfl
+  | cons q d ih =>
+    simp only [List.map_cons, dget]
+    split
+    · rename_i h; simp [h]
+    · exact ih
+
+theorem dictSet_map_val {π ν : Type} (G : κ' → π → ν) (d : List (κ' × π)) (k : κ') (v : π) :
+    dictSet (d.map (fun kv => (kv.1, G kv.1 kv.2))) k (G k v)
+      = (dictSet d k v).map (fun kv => (kv.1, G kv.1 kv.2)) := by
+  induction d with
+  | nil => rfl
+  | cons q d ih =>
+    simp only [List.map_cons, dictSet]
+    split
+    · rename_i h; simp [h]
+    · simp [ih]
+
+theorem setBallot_mapVals {π ν : Type} (F : String → π → ν) (S : List (String × List (String × π)))
+    (b c : String) (p : π) :
+    setBallot (mapVals F S) b c (F c p) = mapVals F (setBallot S b c p) := by
+  unfold setBallot mapVals
+  rw [dget_map_val (fun _ (vs : List (String × π)) => vs.map (fun cp => (cp.1, F cp.1 cp.2))) S b]
+  cases dget S b with
+  | none => simp
+  | some inner =>
+    simp only [Option.map_some]
+    rw [dictSet_map_val F inner c p]
+    exact dictSet_map_val (fun _ (vs : List (String × π)) => vs.map (fun cp => (cp.1, F cp.1 cp.2))) S b _
+
+
+/-- one step of `merge_cvrs` on a one-contest CVR built by `from_vote` is `cvrs[id][cid] = ballot` -/
+theorem merge_step (od : List (String × Votes String String)) (id cid : String) (a : ABallot String) :
+    mergeStep od (id, fromVote a cid) = setBallot od id cid a := by
+  unfold setBallot mergeStep
+  cases dget od id <;> rfl
+
+theorem mapVals_nil {π ν : Type} (F : String → π → ν) : mapVals F [] = [] := rfl
+
+theorem mapM_fromRaireRow (rs : List Row) :
+    (rs.map Row.toks).mapM (fromRaireRow (σ := String))
+      = .ok (rs.map (fun t => (t.2.1, fromVote (fromRaireBallot t.2.2) t.1))) := by
+  induction rs with
+  | nil => rfl
+  | cons t rs ih =>
+    simp only [List.map_cons, List.mapM_cons, ih]
+    rfl
+
+theorem mergeCvrs_fold (rs : List Row) (S : List (String × List (String × List String))) :
+    (rs.map (fun t => (t.2.1, fromVote (fromRaireBallot t.2.2) t.1))).foldl mergeStep
+      (mapVals (fun _ p => fromRaireBallot p) S)
+    = mapVals (fun _ p => fromRaireBallot p) (rs.foldl (fun S t => setBallot S t.2.1 t.1 t.2.2) S) := by
+  induction rs generalizing S with
+  | nil => rfl
+  | cons t rs ih =>
+    simp only [List.map_cons, List.foldl_cons]
+    rw [merge_step, setBallot_mapVals (fun _ p => fromRaireBallot p) S t.2.1 t.1 t.2.2]
+    exact ih _
+
+theorem loadBallotLines_fold (info : List (String × List String × String)) (rs : List Row)
+    (hdecl : ∀ t ∈ rs, (dget info t.1).isSome) (S : List (String × List (String × List String))) :
+    (rs.map Row.toks).foldlM (loadBallotLine info) (mapVals (fun c p => loadRaireBallot (candsOf info c) p) S)
+    = .ok (mapVals (fun c p => loadRaireBallot (candsOf info c) p)
+        (rs.foldl (fun S t => setBallot S t.2.1 t.1 t.2.2) S)) := by
+  induction rs generalizing S with
+  | nil => rfl
+  | cons t rs ih =>
+    have ht := hdecl t List.mem_cons_self
+    simp only [List.map_cons, List.foldlM_cons, List.foldl_cons]
+    have hstep : loadBallotLine info (mapVals (fun c p => loadRaireBallot (candsOf info c) p) S) t.toks
+        = .ok (mapVals (fun c p => loadRaireBallot (candsOf info c) p) (setBallot S t.2.1 t.1 t.2.2)) := by
+      unfold loadBallotLine Row.toks
+      simp only
+      cases hd : dget info t.1 with
+      | none => rw [hd] at ht; simp at ht
+      | some x =>
+        simp only
+        rw [← setBallot_mapVals (fun c p => loadRaireBallot (candsOf info c) p) S t.2.1 t.1 t.2.2]
+        simp [candsOf, hd]
+    rw [hstep]
+    exact ih (fun u hu => hdecl u (List.mem_cons_of_mem _ hu)) _
+
+/-- **C14, readers (whole file).** For every RAIRE file — `n` contest lines that the generator's reader parses
+into `info`, followed by ballot rows `cid, bid, p1, p2, …` (any number of contests, ballot identifiers
+repeated across and within contests, rows in any order) whose contests are declared — both readers succeed,
+skip the same `n + 1` header lines, and produce the same nested structure `bid ↦ cid ↦ ·` (`shape rs`: same
+ballots in the same order, same contests per ballot, the later row replacing an earlier one for the same ballot
+and contest), in which the audit holds `fromRaireBallot prefs` and the generator
+`loadRaireBallot (candidates of cid) prefs` for one and the same row `prefs`. -/
+theorem file_readers (n : Nat) (rows : List (List String)) (info : List (String × List String × String))
+    (rs : List Row) (hinfo : loadContestInfo n rows = .ok info) (hrows : rows.drop (n + 1) = rs.map Row.toks)
+    (hdecl : ∀ t ∈ rs, (dget info t.1).isSome) :
+    fromRaire n rows = .ok (mapVals (fun _ p => fromRaireBallot p) (shape rs)) ∧
+    loadContestsFromRaire n rows
+      = .ok (info, mapVals (fun c p => loadRaireBallot (candsOf info c) p) (shape rs)) := by
+  constructor
+  · unfold fromRaire
+    rw [hrows, mapM_fromRaireRow]
+    simp only [bind, Except.bind, pure, Except.pure]
+    unfold mergeCvrs shape
+    have := mergeCvrs_fold rs []
+    rw [mapVals_nil] at this
+    rw [this]
+  · unfold loadContestsFromRaire loadBallotLines
+    rw [hinfo, hrows]
+    simp only [bind, Except.bind]
+    have := loadBallotLines_fold info rs hdecl []
+    rw [mapVals_nil] at this
+    rw [this]
+    rfl
+
+theorem mem_dictSet_imp {ν : Type} (d : List (κ' × ν)) (k : κ') (v : ν) (p : κ' × ν)
+    (h : p ∈ dictSet d k v) : p ∈ d ∨ p = (k, v) := by
+  induction d with
+  | nil => simp [dictSet] at h; exact Or.inr h
+  | cons q d ih =>
+    simp only [dictSet] at h
+    split at h
+    · rename_i hq
+      rcases List.mem_cons.1 h with h | h
+      · exact Or.inr (by rw [h, hq])
+      · exact Or.inl (List.mem_cons_of_mem _ h)
+    · rcases List.mem_cons.1 h with h | h
+      · exact Or.inl (by rw [h]; exact List.mem_cons_self)
+      · rcases ih h with h | h
+        · exact Or.inl (List.mem_cons_of_mem _ h)
+        · exact Or.inr h
+
+/-- every ballot in the nested structure is the `prefs` of one of the rows -/
+theorem shape_mem (rs : List Row) :
+    ∀ bv ∈ shape rs, ∀ cp ∈ bv.2, (cp.1, bv.1, cp.2) ∈ rs := by
+  unfold shape
+  suffices h : ∀ (rs' : List Row) (S : List (String × List (String × List String))),
+      (∀ bv ∈ S, ∀ cp ∈ bv.2, (cp.1, bv.1, cp.2) ∈ rs) → (∀ t ∈ rs', t ∈ rs) →
+      ∀ bv ∈ rs'.foldl (fun S t => setBallot S t.2.1 t.1 t.2.2) S, ∀ cp ∈ bv.2, (cp.1, bv.1, cp.2) ∈ rs from
+    h rs [] (by simp) (fun t ht => ht)
+  intro rs'
+  induction rs' with
+  | nil => intro S hS _; exact hS
+  | cons t rs' ih =>
+    intro S hS hsub
+    simp only [List.foldl_cons]
+    apply ih _ _ (fun u hu => hsub u (List.mem_cons_of_mem _ hu))
+    have ht : t ∈ rs := hsub t List.mem_cons_self
+    intro bv hbv cp hcp
+    unfold setBallot at hbv
+    cases hd : dget S t.2.1 with
+    | none =>
+      rw [hd] at hbv
+      simp only [List.mem_append, List.mem_singleton] at hbv
+      rcases hbv with hbv | hbv
+      · exact hS bv hbv cp hcp
+      · subst hbv
+        simp only [List.mem_singleton] at hcp
+        subst hcp
+        exact ht
+    | some inner =>
+      rw [hd] at hbv
+      simp only at hbv
+      rcases mem_dictSet_imp _ _ _ _ hbv with hbv | hbv
+      · exact hS bv hbv cp hcp
+      · subst hbv
+        simp only at hcp ⊢
+        rcases mem_dictSet_imp _ _ _ _ hcp with hcp | hcp
+        · exact hS (t.2.1, inner) (dget_mem hd) cp hcp
+        · subst hcp; exact ht
+
+theorem mapVals_mapVals {π ν μ : Type} (F : String → π → ν) (G : String → ν → μ)
+    (S : List (String × List (String × π))) :
+    mapVals G (mapVals F S) = mapVals (fun c p => G c (F c p)) S := by
+  unfold mapVals
+  simp [List.map_map, Function.comp_def]
+
+theorem mapVals_congr {π ν : Type} (F G : String → π → ν) (S : List (String × List (String × π)))
+    (h : ∀ bv ∈ S, ∀ cp ∈ bv.2, F cp.1 cp.2 = G cp.1 cp.2) : mapVals F S = mapVals G S := by
+  unfold mapVals
+  apply List.map_congr_left
+  intro bv hbv
+  congr 1
+  apply List.map_congr_left
+  intro cp hcp
+  rw [h bv hbv cp hcp]
+
+theorem mapVals_id {π : Type} (S : List (String × List (String × π))) : mapVals (fun _ p => p) S = S := by
+  unfold mapVals
+  simp
+
+/-- a row is *clean* for `info`: its contest is declared and its preferences are a duplicate-free ranking of
+candidates listed for that contest -/
+def CleanRow (info : List (String × List String × String)) (t : Row) : Prop :=
+  (dget info t.1).isSome ∧ t.2.2.Nodup ∧ ∀ c ∈ t.2.2, c ∈ candsOf info t.1
+
+/-- **C14, readers (whole file), preference orders.** On a file all of whose ballot rows are clean, the two
+readers' outputs decode to the same preference order for every (ballot, contest) — namely the row's own
+`prefs` — in the same nested structure. -/
+theorem file_orders_agree (n : Nat) (rows : List (List String)) (info : List (String × List String × String))
+    (rs : List Row) (hinfo : loadContestInfo n rows = .ok info) (hrows : rows.drop (n + 1) = rs.map Row.toks)
+    (hclean : ∀ t ∈ rs, CleanRow info t) :
+    ∃ acvrs gcvrs, fromRaire n rows = .ok acvrs ∧ loadContestsFromRaire n rows = .ok (info, gcvrs) ∧
+      mapVals (fun _ a => auditOrder a) acvrs = shape rs ∧
+      mapVals (fun _ g => genOrder g) gcvrs = shape rs := by
+  obtain ⟨h1, h2⟩ := file_readers n rows info rs hinfo hrows (fun t ht => (hclean t ht).1)
+  refine ⟨_, _, h1, h2, ?_, ?_⟩
+  · rw [mapVals_mapVals]
+    refine (mapVals_congr _ (fun _ p => p) _ ?_).trans (mapVals_id _)
+    intro bv hbv cp hcp
+    obtain ⟨_, hnd, hsub⟩ := hclean _ (shape_mem rs bv hbv cp hcp)
+    exact (readers_agree (candsOf info cp.1) cp.2 hnd hsub).2.2.2.1
+  · rw [mapVals_mapVals]
+    refine (mapVals_congr _ (fun _ p => p) _ ?_).trans (mapVals_id _)
+    intro bv hbv cp hcp
+    obtain ⟨_, hnd, hsub⟩ := hclean _ (shape_mem rs bv hbv cp hcp)
+    exact (readers_agree (candsOf info cp.1) cp.2 hnd hsub).2.2.2.2.1
+
+/-- the cards of the file, each as (what the audit reader holds, what the generator reader holds) -/
+def filePairs (info : List (String × List String × String)) (rs : List Row) :
+    List (Votes String String × GCvr String String) :=
+  (shape rs).map (fun bv =>
+    (bv.2.map (fun cp => (cp.1, fromRaireBallot cp.2)),
+     bv.2.map (fun cp => (cp.1, loadRaireBallot (candsOf info cp.1) cp.2))))
+
+theorem file_aligned (info : List (String × List String × String)) (rs : List Row)
+    (hclean : ∀ t ∈ rs, CleanRow info t) (cid : String) :
+    ∀ p ∈ filePairs info rs, Aligned cid (candsOf info cid) p := by
+  intro p hp
+  unfold filePairs at hp
+  obtain ⟨bv, hbv, rfl⟩ := List.mem_map.1 hp
+  unfold Aligned
+  simp only
+  rw [dget_map_val (fun _ p => fromRaireBallot p) bv.2 cid,
+    dget_map_val (fun c p => loadRaireBallot (candsOf info c) p) bv.2 cid]
+  cases hd : dget bv.2 cid with
+  | none => exact Or.inl ⟨rfl, rfl⟩
+  | some prefs =>
+    obtain ⟨_, hnd, hsub⟩ := hclean _ (shape_mem rs bv hbv (cid, prefs) (dget_mem hd))
+    obtain ⟨h1, h2, h3, _⟩ := readers_agree (candsOf info cid) prefs hnd hsub
+    refine Or.inr ⟨prefs, loadRaireBallot (candsOf info cid) prefs, hnd, hsub, ?_, rfl,
+      ⟨h2, keys_nodup_genEnc prefs hnd, h3⟩⟩
+    simp only [Option.map_some, h1]
+
+/-- **C14, whole file.** On a RAIRE file all of whose ballot rows are clean (declared contest, duplicate-free
+ranking of listed candidates; any number of contests, repeated ballot identifiers), with the audit's CVRs read
+by `CVR.from_raire` and the generator's by `load_contests_from_raire`: for every contest, winner and loser the
+mean of the audit's WINNER_ONLY assorter over the CVRs (`Assorter.mean`, either `use_style`) exceeds 1/2
+exactly when the generator's NEB tally of the winner over its cvrs exceeds that of the loser; and the same for
+the IRV_ELIMINATION assorter and the NEN tallies, for every eliminated set and winner, loser among the
+contest's candidates. -/
+theorem file_mean_gt_half_iff_tally (n : Nat) (rows : List (List String))
+    (info : List (String × List String × String)) (rs : List Row)
+    (hinfo : loadContestInfo n rows = .ok info) (hrows : rows.drop (n + 1) = rs.map Row.toks)
+    (hclean : ∀ t ∈ rs, CleanRow info t) (cid w l : String) (useStyle : Bool) :
+    ∃ acvrs gcvrs, fromRaire n rows = .ok acvrs ∧ loadContestsFromRaire n rows = .ok (info, gcvrs) ∧
+      (match assorterMean (fun v => nebAssort v cid w l) cid (acvrs.map (·.2)) useStyle with
+        | none => ¬ (gcvrs.map (fun r => nebLoser cid w l r.2)).sum < (gcvrs.map (fun r => nebWinner cid w r.2)).sum
+        | some m => ((1 : Rat) / 2 < m ↔
+            (gcvrs.map (fun r => nebLoser cid w l r.2)).sum < (gcvrs.map (fun r => nebWinner cid w r.2)).sum)) ∧
+      (∀ E, w ∈ candsOf info cid → l ∈ candsOf info cid →
+        match assorterMean (fun v => nenAssort v cid w l (remnOf (candsOf info cid) E)) cid (acvrs.map (·.2))
+            useStyle with
+        | none => ¬ (gcvrs.map (fun r => nenLoser cid l E r.2)).sum < (gcvrs.map (fun r => nenWinner cid w E r.2)).sum
+        | some m => ((1 : Rat) / 2 < m ↔
+            (gcvrs.map (fun r => nenLoser cid l E r.2)).sum < (gcvrs.map (fun r => nenWinner cid w E r.2)).sum)) := by
+  obtain ⟨h1, h2⟩ := file_readers n rows info rs hinfo hrows (fun t ht => (hclean t ht).1)
+  refine ⟨_, _, h1, h2, ?_, ?_⟩
+  · have hA : (mapVals (fun _ p => fromRaireBallot p) (shape rs)).map (·.2) = (filePairs info rs).map (·.1) := by
+      simp [mapVals, filePairs, List.map_map, Function.comp_def]
+    have hG : ∀ f : GCvr String String → Int,
+        (mapVals (fun c p => loadRaireBallot (candsOf info c) p) (shape rs)).map (fun r => f r.2)
+          = (filePairs info rs).map (fun p => f p.2) := by
+      intro f; simp [mapVals, filePairs, List.map_map, Function.comp_def]
+    rw [hA, hG (nebWinner cid w), hG (nebLoser cid w l)]
+    exact mean_gt_half_iff_tally cid (candsOf info cid) w l (filePairs info rs)
+      (file_aligned info rs hclean cid) useStyle
+  · intro E hw hl
+    have hA : (mapVals (fun _ p => fromRaireBallot p) (shape rs)).map (·.2) = (filePairs info rs).map (·.1) := by
+      simp [mapVals, filePairs, List.map_map, Function.comp_def]
+    have hG : ∀ f : GCvr String String → Int,
+        (mapVals (fun c p => loadRaireBallot (candsOf info c) p) (shape rs)).map (fun r => f r.2)
+          = (filePairs info rs).map (fun p => f p.2) := by
+      intro f; simp [mapVals, filePairs, List.map_map, Function.comp_def]
+    rw [hA, hG (nenWinner cid w E), hG (nenLoser cid l E)]
+    exact mean_gt_half_iff_tally_nen cid (candsOf info cid) E w l hw hl (filePairs info rs)
+      (file_aligned info rs hclean cid) useStyle
+
+end File
+
 /-! ### Non-vacuity: concrete instances (tests of the statements and of their hypotheses, not the theorems) -/
 
 -- ballot B > A, assertion "A NEB B": a vote for the loser on both sides, assorter value 0
@@ -1017,5 +1342,21 @@ example : mkNen "c" "A" "B" ["C"]
     = some (Assn.nen "c" "A" "B" ["C"] 2 1) := by
   decide
 
+
+-- a whole file: one contest line, three ballot rows (ballot b1 appears twice: the later row wins)
+def demoRows : List (List String) :=
+  [["1"], ["Contest", "c1", "3", "A", "B", "C", "winner", "A"],
+   ["c1", "b1", "A", "B"], ["c1", "b2", "C", "A"], ["c1", "b1", "B"]]
+def demoInfo : List (String × List String × String) := [("c1", ["A", "B", "C"], "A")]
+def demoRs : List Row := [("c1", "b1", ["A", "B"]), ("c1", "b2", ["C", "A"]), ("c1", "b1", ["B"])]
+-- hypothesis `hinfo` of the file theorems (`String.toNat?` does not reduce in the kernel, so this one is evaluated)
+#guard (match loadContestInfo 1 demoRows with | .ok i => i == demoInfo | .error _ => false)
+-- hypotheses `hrows`, `hclean`
+example : demoRows.drop (1 + 1) = demoRs.map Row.toks := by decide
+example : ∀ t ∈ demoRs, CleanRow demoInfo t := by
+  intro t ht
+  simp only [demoRs, List.mem_cons, List.not_mem_nil, or_false] at ht
+  rcases ht with rfl | rfl | rfl <;> exact ⟨by decide, by decide, by decide⟩
+example : shape demoRs = [("b1", [("c1", ["B"])]), ("b2", [("c1", ["C", "A"])])] := by decide
 
 end Shangrla.C14
